@@ -295,8 +295,15 @@ type State struct {
 	epoch     int
 	Events    []Event
 	Labels    []string
+	Conds     []Cond // branch assumptions taken on this path (unfolded conditions)
 	Truncated bool
 	depth     int
+}
+
+// Cond is one assumed branch condition.
+type Cond struct {
+	V     AV
+	Truth bool
 }
 
 func newState() *State {
@@ -330,6 +337,7 @@ func (s *State) clone() *State {
 	}
 	n.Events = append([]Event(nil), s.Events...)
 	n.Labels = append([]string(nil), s.Labels...)
+	n.Conds = append([]Cond(nil), s.Conds...)
 	return n
 }
 
@@ -1074,6 +1082,7 @@ func (in *Interp) vals(st *State, vs []ssa.Value) []AV {
 // assume records a branch assumption and refines holes where possible.
 func (in *Interp) assume(st *State, c AV, truth bool, ins *ssa.If) {
 	st.Labels = append(st.Labels, fmt.Sprintf("%s=%v", c.String(), truth))
+	st.Conds = append(st.Conds, Cond{c, truth})
 	switch e := c.(type) {
 	case Sym:
 		st.refine[e.Name] = mkBool(truth)
